@@ -1,18 +1,1159 @@
-//! C17 — not built yet.
+//! C17 — configuration parsers never crash on any text.
+//!
+//! Every string of a bounded length over a small alphabet of the characters
+//! the two tokenisers distinguish, every single (and, thorough, double) symbol
+//! edit of a base corpus, and a list of size extremes go through
+//! `Zone::deserialise` / `Hosts::deserialise` in child processes (`vcheck
+//! worker C17 ...`) on a thread with a 2 MiB stack under a watchdog; error
+//! files of every class go through `resolved::fs::load_zone_configuration`.
+//! Oracle: a result or an error; no panic, no abnormal exit, no hang.
+
 use crate::common::*;
-use serde_json::Value;
+use crate::c11::zonegen;
+use dns_types::hosts::types::Hosts;
+use dns_types::zones::types::Zone;
+use serde_json::{json, Value};
+use std::collections::BTreeMap;
+use std::io::{BufRead, BufReader, Read, Write};
+use std::process::{Command, Stdio};
+use std::sync::atomic::{AtomicBool, AtomicU64, Ordering};
+use std::sync::Arc;
+use std::time::{Duration, Instant};
 
-pub fn run(_ctx: &Ctx) -> i32 {
-    eprintln!("C17: check not built");
-    2
+const ZONE_ALPHABET: [&str; 26] = [
+    "a", "1", ".", "@", "*", "$", "\\", "\"", "(", ")", ";", "#", " ", "\t", "\n", "\r", "\0", "é", "😀", "IN", "A",
+    "SOA", "$ORIGIN", "$INCLUDE", "300", "99999999999",
+];
+const HOSTS_ALPHABET: [&str; 14] = [
+    "a", "1", ".", ":", "#", "%", " ", "\t", "\n", "\r", "\0", "é", "127.0.0.1", "fe80::2",
+];
+
+#[derive(Copy, Clone, PartialEq, Eq, Debug)]
+enum Parser {
+    ZoneP,
+    HostsP,
+}
+impl Parser {
+    fn name(self) -> &'static str {
+        match self {
+            Parser::ZoneP => "zone",
+            Parser::HostsP => "hosts",
+        }
+    }
+    fn from(s: &str) -> Option<Parser> {
+        match s {
+            "zone" => Some(Parser::ZoneP),
+            "hosts" => Some(Parser::HostsP),
+            _ => None,
+        }
+    }
+    fn alphabet(self) -> &'static [&'static str] {
+        match self {
+            Parser::ZoneP => &ZONE_ALPHABET,
+            Parser::HostsP => &HOSTS_ALPHABET,
+        }
+    }
 }
 
-pub fn replay(_ctx: &Ctx, _v: &Value) -> i32 {
-    eprintln!("C17: check not built");
-    2
+/// Outcome class of one call (never formats the error: errors may hold the
+/// whole input).
+fn classify(p: Parser, text: &str) -> &'static str {
+    match p {
+        Parser::ZoneP => {
+            use dns_types::zones::deserialise::Error as E;
+            match Zone::deserialise(text) {
+                Ok(z) => {
+                    if z.all_records().is_empty() && z.all_wildcard_records().is_empty() {
+                        "ok-empty"
+                    } else {
+                        "ok-records"
+                    }
+                }
+                Err(e) => match e {
+                    E::TokeniserUnexpected { .. } => "err:TokeniserUnexpected",
+                    E::TokeniserUnexpectedEscape { .. } => "err:TokeniserUnexpectedEscape",
+                    E::IncludeNotSupported { .. } => "err:IncludeNotSupported",
+                    E::MultipleSOA => "err:MultipleSOA",
+                    E::WildcardSOA => "err:WildcardSOA",
+                    E::NotSubdomainOfApex { .. } => "err:NotSubdomainOfApex",
+                    E::Unexpected { .. } => "err:Unexpected",
+                    E::ExpectedU32 { .. } => "err:ExpectedU32",
+                    E::ExpectedOrigin => "err:ExpectedOrigin",
+                    E::ExpectedDomainName { .. } => "err:ExpectedDomainName",
+                    E::WrongLen { .. } => "err:WrongLen",
+                    E::MissingType { .. } => "err:MissingType",
+                    E::MissingTTL { .. } => "err:MissingTTL",
+                    E::MissingDomainName { .. } => "err:MissingDomainName",
+                },
+            }
+        }
+        Parser::HostsP => {
+            use dns_types::hosts::deserialise::Error as E;
+            match Hosts::deserialise(text) {
+                Ok(h) => {
+                    if h.v4.is_empty() && h.v6.is_empty() {
+                        "ok-empty"
+                    } else {
+                        "ok-records"
+                    }
+                }
+                Err(e) => match e {
+                    E::ExpectedAscii { .. } => "err:ExpectedAscii",
+                    E::CouldNotParseAddress { .. } => "err:CouldNotParseAddress",
+                    E::CouldNotParseName { .. } => "err:CouldNotParseName",
+                },
+            }
+        }
+    }
 }
 
-/// Entry point for `vcheck worker C17 <args...>` (child-process mode).
-pub fn worker(_args: &[String]) -> i32 {
-    2
+// ---------------------------------------------------------------------------
+// input families, all addressed by (family, index)
+// ---------------------------------------------------------------------------
+
+fn zone_bases() -> Vec<String> {
+    let mut v: Vec<String> = vec![
+        "$ORIGIN ex.\n@ 60 IN SOA ns1 admin 1 2 3 4 60\n".into(),
+        "www 300 IN A 10.0.0.1\n".into(),
+        "* 5 IN TXT \"a b\"\n".into(),
+        "$ORIGIN ex.\nwww IN 5 MX 10 mail ; c\n A 10.0.0.1\n".into(),
+        "@ IN SOA a b ( 1 2\n 3 4 5 )\n".into(),
+        "a.b. 1 IN TXT \\\"\\065\\\\\n".into(),
+        "$INCLUDE f.zone ex.\n".into(),
+        "*.w.ex. 1 SRV 0 0 80 @\n".into(),
+    ];
+    v.extend(zonegen::base_corpus());
+    v
+}
+
+fn hosts_bases() -> Vec<String> {
+    vec![
+        "127.0.0.1 localhost\n".into(),
+        "::1 ip6-localhost ip6-loopback\n".into(),
+        "10.0.0.1 a.b c # comment\n".into(),
+        "fe80::1%eth0 x\n".into(),
+        "# only a comment\n\n1.2.3.4\tfoo.bar.\tbaz\r\n".into(),
+        "1.2.3.4 a#b\n".into(),
+        "127.0.0.1\tlocalhost localhost.localdomain\n::1\t\tlocalhost ip6-localhost\nff02::1 ip6-allnodes\nff02::2 ip6-allrouters\n\n# The following lines are desirable for IPv6 capable hosts\n192.168.1.10   nas.lan nas   # storage\n0.0.0.0 ads.example.com tracker.example.net\n::ffff:10.1.2.3 mapped.lan\n".into(),
+    ]
+}
+
+fn bases(p: Parser) -> Vec<String> {
+    match p {
+        Parser::ZoneP => zone_bases(),
+        Parser::HostsP => hosts_bases(),
+    }
+}
+
+/// Number of single edits of a text of `n` units with `s` symbols:
+/// insert at n+1 places, substitute at n places (s symbols each), delete at n.
+fn edits(n: usize, s: usize) -> usize {
+    (2 * n + 1) * s + n
+}
+
+/// Apply edit number `e` to `units`; `None` when the position lies outside.
+fn apply_edit(units: &[String], alphabet: &[&str], e: usize) -> Option<Vec<String>> {
+    let n = units.len();
+    let s = alphabet.len();
+    let mut out: Vec<String> = units.to_vec();
+    if e < (n + 1) * s {
+        let pos = e / s;
+        out.insert(pos, alphabet[e % s].to_string());
+    } else if e < (2 * n + 1) * s {
+        let e = e - (n + 1) * s;
+        let pos = e / s;
+        if out[pos] == alphabet[e % s] {
+            return None; // no change
+        }
+        out[pos] = alphabet[e % s].to_string();
+    } else if e < edits(n, s) {
+        let pos = e - (2 * n + 1) * s;
+        out.remove(pos);
+    } else {
+        return None;
+    }
+    Some(out)
+}
+
+const N_EXTREMES: usize = 34;
+
+fn extreme(i: usize) -> Option<(Parser, &'static str, String)> {
+    let mib = 1usize << 20;
+    let z = Parser::ZoneP;
+    let h = Parser::HostsP;
+    let rep = |s: &str, n: usize| s.repeat(n);
+    Some(match i {
+        0 => (z, "one token of 1 MiB", rep("a", mib)),
+        1 => (z, "owner of 1 MiB in a record", format!("{} 300 IN A 10.0.0.1\n", rep("a", mib))),
+        2 => (z, "one line of 1 MiB (512 Ki tokens)", rep("a ", mib / 2)),
+        3 => (z, "TXT string of 1 MiB", format!("a. 300 IN TXT \"{}\"\n", rep("x", mib))),
+        4 => (z, "10^5 opening parentheses", rep("(", 100_000)),
+        5 => (z, "10^5 opening parentheses on separate lines", rep("(\n", 100_000)),
+        6 => (z, "( then 10^5 line breaks then )", format!("a. 300 IN A ({}10.0.0.1 )\n", rep("\n", 100_000))),
+        7 => (z, "10^5+1 backslashes at end of input", rep("\\", 100_001)),
+        8 => (z, "record followed by 10^5 backslashes", format!("a. 300 IN TXT {}", rep("\\", 100_000))),
+        9 => (z, "10^6 blank lines", rep("\n", 1_000_000)),
+        10 => (z, "10^6 comment lines", rep("; c\n", 1_000_000)),
+        11 => (z, "10^6 identical record lines", rep("a. 300 IN A 10.0.0.1\n", 1_000_000)),
+        12 => (z, "10^5 distinct record lines", (0..100_000).map(|i| format!("h{i}.ex. 300 IN A 10.0.0.1\n")).collect()),
+        13 => (z, "1 MiB of double quotes", rep("\"", mib)),
+        14 => (z, "unterminated quoted string of 1 MiB", format!("a. 300 IN TXT \"{}", rep("x", mib))),
+        15 => (z, "1 MiB of semicolons", rep(";", mib)),
+        16 => (z, "10^5 decimal escapes in one token", format!("a. 300 IN TXT {}\n", rep("\\000", 100_000))),
+        17 => (z, "1 MiB of NUL", rep("\0", mib)),
+        18 => (z, "1 MiB of non-ASCII", rep("é", mib / 2)),
+        19 => (z, "name of 10^5 labels", format!("{} 300 IN A 10.0.0.1\n", rep("a.", 100_000))),
+        20 => (z, "10^5 $ORIGIN lines, each relative to the one before", format!("$ORIGIN a.\n{}", rep("$ORIGIN a\n", 100_000))),
+        21 => (z, "10^6 closing parentheses", rep(")", 1_000_000)),
+        22 => (z, "record with 10^5 RDATA fields", format!("a. 300 IN TXT{}\n", rep(" x", 100_000))),
+        23 => (z, "1 MiB of CR", rep("\r", mib)),
+        24 => (h, "address token of 1 MiB", rep("1", mib)),
+        25 => (h, "name of 1 MiB", format!("1.2.3.4 {}\n", rep("a", mib))),
+        26 => (h, "line of 1 MiB of names", format!("1.2.3.4 {}\n", rep("a ", mib / 2))),
+        27 => (h, "10^6 lines", rep("127.0.0.1 a\n", 1_000_000)),
+        28 => (h, "10^6 comment lines", rep("# c\n", 1_000_000)),
+        29 => (h, "10^5 distinct names", (0..100_000).map(|i| format!("10.0.0.1 h{i}.lan\n")).collect()),
+        30 => (h, "1 MiB of #", rep("#", mib)),
+        31 => (h, "1 MiB of %", rep("%", mib)),
+        32 => (h, "1 MiB of blanks", rep(" \t", mib / 2)),
+        33 => (h, "name of 10^5 labels", format!("1.2.3.4 {}\n", rep("a.", 100_000))),
+        _ => return None,
+    })
+}
+
+#[derive(Clone, Debug)]
+enum Family {
+    /// every string of exactly `len` symbols
+    Enum { p: Parser, len: u32 },
+    /// single edits of base file `file`
+    Edit1 { p: Parser, file: usize },
+    /// ordered pairs of edits of base file `file`
+    Edit2 { p: Parser, file: usize },
+    Extreme,
+}
+
+impl Family {
+    fn args(&self) -> Vec<String> {
+        match self {
+            Family::Enum { p, len } => vec!["enum".into(), p.name().into(), len.to_string()],
+            Family::Edit1 { p, file } => vec!["edit1".into(), p.name().into(), file.to_string()],
+            Family::Edit2 { p, file } => vec!["edit2".into(), p.name().into(), file.to_string()],
+            Family::Extreme => vec!["extreme".into(), "-".into(), "0".into()],
+        }
+    }
+    fn parse(args: &[String]) -> Option<Family> {
+        let n: usize = args.get(2)?.parse().ok()?;
+        match args.first()?.as_str() {
+            "enum" => Some(Family::Enum { p: Parser::from(args.get(1)?)?, len: n as u32 }),
+            "edit1" => Some(Family::Edit1 { p: Parser::from(args.get(1)?)?, file: n }),
+            "edit2" => Some(Family::Edit2 { p: Parser::from(args.get(1)?)?, file: n }),
+            "extreme" => Some(Family::Extreme),
+            _ => None,
+        }
+    }
+    fn units_of(p: Parser, file: usize) -> Vec<String> {
+        bases(p).get(file).map(|t| t.chars().map(|c| c.to_string()).collect()).unwrap_or_default()
+    }
+    fn size(&self) -> u64 {
+        match self {
+            Family::Enum { p, len } => (p.alphabet().len() as u64).pow(*len),
+            Family::Edit1 { p, file } => edits(Self::units_of(*p, *file).len(), p.alphabet().len()) as u64,
+            Family::Edit2 { p, file } => {
+                let n = Self::units_of(*p, *file).len();
+                let s = p.alphabet().len();
+                edits(n, s) as u64 * edits(n + 1, s) as u64
+            }
+            Family::Extreme => N_EXTREMES as u64,
+        }
+    }
+    fn describe(&self) -> String {
+        match self {
+            Family::Enum { p, len } => format!("{}:all-strings-of-{len}-symbols", p.name()),
+            Family::Edit1 { p, file } => format!("{}:single-edits-of-base-{file}", p.name()),
+            Family::Edit2 { p, file } => format!("{}:double-edits-of-base-{file}", p.name()),
+            Family::Extreme => "size-extremes".into(),
+        }
+    }
+}
+
+/// Generator with per-family cached state (the child builds it once).
+struct Gen {
+    fam: Family,
+    units: Vec<String>,
+}
+
+impl Gen {
+    fn new(fam: Family) -> Gen {
+        let units = match &fam {
+            Family::Edit1 { p, file } | Family::Edit2 { p, file } => Family::units_of(*p, *file),
+            _ => Vec::new(),
+        };
+        Gen { fam, units }
+    }
+    /// (parser, input) of case `idx`; `None` if the index denotes no input.
+    fn input(&self, idx: u64, buf: &mut String) -> Option<Parser> {
+        buf.clear();
+        match &self.fam {
+            Family::Enum { p, len } => {
+                let a = p.alphabet();
+                let mut i = idx;
+                for _ in 0..*len {
+                    buf.push_str(a[(i % a.len() as u64) as usize]);
+                    i /= a.len() as u64;
+                }
+                Some(*p)
+            }
+            Family::Edit1 { p, .. } => {
+                let out = apply_edit(&self.units, p.alphabet(), idx as usize)?;
+                for u in &out {
+                    buf.push_str(u);
+                }
+                Some(*p)
+            }
+            Family::Edit2 { p, .. } => {
+                let s = p.alphabet().len();
+                let e2n = edits(self.units.len() + 1, s) as u64;
+                let first = apply_edit(&self.units, p.alphabet(), (idx / e2n) as usize)?;
+                let e2 = (idx % e2n) as usize;
+                if e2 >= edits(first.len(), s) {
+                    return None;
+                }
+                let out = apply_edit(&first, p.alphabet(), e2)?;
+                for u in &out {
+                    buf.push_str(u);
+                }
+                Some(*p)
+            }
+            Family::Extreme => {
+                let (p, _, text) = extreme(idx as usize)?;
+                buf.push_str(&text);
+                Some(p)
+            }
+        }
+    }
+}
+
+// ---------------------------------------------------------------------------
+// child process
+// ---------------------------------------------------------------------------
+
+fn process_cpu_ms() -> u64 {
+    let mut ts = libc::timespec { tv_sec: 0, tv_nsec: 0 };
+    // SAFETY: plain syscall wrapper writing into a local struct
+    let r = unsafe { libc::clock_gettime(libc::CLOCK_PROCESS_CPUTIME_ID, &mut ts) };
+    if r != 0 {
+        return 0;
+    }
+    ts.tv_sec as u64 * 1000 + ts.tv_nsec as u64 / 1_000_000
+}
+
+const PROGRESS_EVERY: u64 = 1 << 16;
+
+/// `vcheck worker C17 <family> <parser> <n> <start> <end> <hang_limit_ms>`
+pub fn worker(args: &[String]) -> i32 {
+    if args.first().map(String::as_str) == Some("loader") {
+        // `vcheck worker C17 loader <case index> <directory>`
+        let idx: usize = args.get(1).and_then(|s| s.parse().ok()).unwrap_or(usize::MAX);
+        let dir = std::path::PathBuf::from(args.get(2).cloned().unwrap_or_default());
+        std::panic::set_hook(Box::new(|_| {}));
+        return match loader_cases().get(idx) {
+            Some(c) => {
+                match run_loader_case(&dir, c) {
+                    Ok(true) => println!("LOADER some"),
+                    Ok(false) => println!("LOADER none"),
+                    Err(e) => println!("LOADER error {e}"),
+                }
+                0
+            }
+            None => 2,
+        };
+    }
+    let fam = match Family::parse(args) {
+        Some(f) => f,
+        None => return 2,
+    };
+    let start: u64 = args.get(3).and_then(|s| s.parse().ok()).unwrap_or(0);
+    let end: u64 = args.get(4).and_then(|s| s.parse().ok()).unwrap_or(0);
+    let hang_ms: u64 = args.get(5).and_then(|s| s.parse().ok()).unwrap_or(10_000);
+    std::panic::set_hook(Box::new(|_| {}));
+    let current = Arc::new(AtomicU64::new(start));
+    let done = Arc::new(AtomicBool::new(false));
+    let is_extreme = matches!(fam, Family::Extreme);
+    let cur2 = current.clone();
+    let done2 = done.clone();
+    let handle = std::thread::Builder::new()
+        .stack_size(2 << 20)
+        .spawn(move || {
+            let gen = Gen::new(fam);
+            let mut hist: BTreeMap<&'static str, u64> = BTreeMap::new();
+            let mut panics: Vec<u64> = Vec::new();
+            let mut slowest: (u64, u64) = (0, 0);
+            let mut none = 0u64;
+            let mut buf = String::new();
+            let out = std::io::stdout();
+            let mut idx = start;
+            while idx < end {
+                cur2.store(idx, Ordering::Relaxed);
+                if idx % PROGRESS_EVERY == 0 || is_extreme {
+                    let mut o = out.lock();
+                    let _ = writeln!(o, "P {idx}");
+                    let _ = o.flush();
+                }
+                match gen.input(idx, &mut buf) {
+                    None => none += 1,
+                    Some(p) => {
+                        let t0 = Instant::now();
+                        let r = std::panic::catch_unwind(|| classify(p, &buf));
+                        let us = t0.elapsed().as_micros() as u64;
+                        if us > slowest.0 {
+                            slowest = (us, idx);
+                        }
+                        match r {
+                            Ok(c) => *hist.entry(c).or_insert(0) += 1,
+                            Err(_) => {
+                                if panics.len() < 50 {
+                                    panics.push(idx);
+                                }
+                                *hist.entry("PANIC").or_insert(0) += 1;
+                            }
+                        }
+                    }
+                }
+                idx += 1;
+            }
+            done2.store(true, Ordering::Relaxed);
+            let mut o = out.lock();
+            let _ = writeln!(
+                o,
+                "DONE {}",
+                json!({"hist": hist, "panics": panics, "slowest_us": slowest.0, "slowest_idx": slowest.1, "no_input": none})
+            );
+            let _ = o.flush();
+        });
+    let handle = match handle {
+        Ok(h) => h,
+        Err(_) => return 2,
+    };
+    // watchdog: the same input for longer than the limit is a hang.  The
+    // limit is counted in CPU time of this process (only the worker thread
+    // computes), so that a machine busy with other work cannot fake a hang; a
+    // wall-clock limit twenty times as long catches a thread that sleeps.
+    let mut last = (u64::MAX, process_cpu_ms(), Instant::now());
+    loop {
+        std::thread::sleep(Duration::from_millis(50));
+        if handle.is_finished() {
+            break;
+        }
+        let c = current.load(Ordering::Relaxed);
+        if c != last.0 {
+            last = (c, process_cpu_ms(), Instant::now());
+        } else if !done.load(Ordering::Relaxed)
+            && (process_cpu_ms().saturating_sub(last.1) > hang_ms || last.2.elapsed() > Duration::from_millis(hang_ms * 20))
+        {
+            println!("HANG {c}");
+            let _ = std::io::stdout().flush();
+            std::process::exit(3);
+        }
+    }
+    match handle.join() {
+        Ok(()) => 0,
+        Err(_) => 4,
+    }
+}
+
+// ---------------------------------------------------------------------------
+// parent side
+// ---------------------------------------------------------------------------
+
+#[derive(Debug)]
+enum ChildEnd {
+    Done(Value),
+    Hang(u64),
+    /// abnormal exit: description, last progress mark
+    Abnormal(String, u64),
+    Timeout(u64),
+    Spawn(String),
+}
+
+fn run_child(fam: &Family, start: u64, end: u64, hang_ms: u64, limit: Duration) -> ChildEnd {
+    let exe = match std::env::current_exe() {
+        Ok(e) => e,
+        Err(e) => return ChildEnd::Spawn(e.to_string()),
+    };
+    let mut args = vec!["worker".to_string(), "C17".to_string()];
+    args.extend(fam.args());
+    args.push(start.to_string());
+    args.push(end.to_string());
+    args.push(hang_ms.to_string());
+    let mut child = match Command::new(exe).args(&args).stdin(Stdio::null()).stdout(Stdio::piped()).stderr(Stdio::null()).spawn() {
+        Ok(c) => c,
+        Err(e) => return ChildEnd::Spawn(e.to_string()),
+    };
+    let stdout = child.stdout.take();
+    let reader = std::thread::spawn(move || {
+        let mut last_p = None;
+        let mut done = None;
+        let mut hang = None;
+        if let Some(s) = stdout {
+            for line in BufReader::new(s).lines().map_while(Result::ok) {
+                if let Some(r) = line.strip_prefix("P ") {
+                    last_p = r.trim().parse::<u64>().ok();
+                } else if let Some(r) = line.strip_prefix("DONE ") {
+                    done = serde_json::from_str::<Value>(r).ok();
+                } else if let Some(r) = line.strip_prefix("HANG ") {
+                    hang = r.trim().parse::<u64>().ok();
+                }
+            }
+        }
+        (last_p, done, hang)
+    });
+    let t0 = Instant::now();
+    let status = loop {
+        match child.try_wait() {
+            Ok(Some(s)) => break Some(s),
+            Ok(None) => {
+                if t0.elapsed() > limit {
+                    let _ = child.kill();
+                    let _ = child.wait();
+                    break None;
+                }
+                std::thread::sleep(Duration::from_millis(20));
+            }
+            Err(_) => break None,
+        }
+    };
+    let (last_p, done, hang) = reader.join().unwrap_or((None, None, None));
+    let mark = last_p.unwrap_or(start);
+    match status {
+        None => ChildEnd::Timeout(mark),
+        Some(s) => {
+            if let Some(h) = hang {
+                return ChildEnd::Hang(h);
+            }
+            if s.success() {
+                match done {
+                    Some(d) => ChildEnd::Done(d),
+                    None => ChildEnd::Abnormal("exit 0 without a result line".into(), mark),
+                }
+            } else {
+                use std::os::unix::process::ExitStatusExt;
+                let what = match (s.code(), s.signal()) {
+                    (Some(c), _) => format!("exit code {c}"),
+                    (None, Some(sig)) => format!("killed by signal {sig}"),
+                    _ => "unknown exit".into(),
+                };
+                ChildEnd::Abnormal(what, mark)
+            }
+        }
+    }
+}
+
+fn input_hex(fam: &Family, idx: u64) -> (String, String) {
+    let g = Gen::new(fam.clone());
+    let mut buf = String::new();
+    match g.input(idx, &mut buf) {
+        Some(p) => (p.name().to_string(), hex(buf.as_bytes())),
+        None => ("-".into(), String::new()),
+    }
+}
+
+fn replay_of(fam: &Family, idx: u64) -> Value {
+    if matches!(fam, Family::Extreme) {
+        let what = extreme(idx as usize).map(|x| x.1).unwrap_or("?");
+        return json!({"kind": "extreme", "index": idx, "what": what});
+    }
+    let (p, h) = input_hex(fam, idx);
+    json!({"kind": "text", "parser": p, "family": fam.describe(), "index": idx, "hex": h})
+}
+
+fn shown(fam: &Family, idx: u64) -> String {
+    if matches!(fam, Family::Extreme) {
+        return extreme(idx as usize).map(|x| format!("{} ({})", x.1, x.0.name())).unwrap_or_default();
+    }
+    let g = Gen::new(fam.clone());
+    let mut buf = String::new();
+    g.input(idx, &mut buf);
+    let s: String = buf.chars().take(200).collect();
+    format!("{:?}", s)
+}
+
+/// Narrow an abnormally ending range down to one index by re-running halves.
+fn bisect(fam: &Family, mut lo: u64, mut hi: u64, hang_ms: u64, limit: Duration) -> Option<(u64, String)> {
+    let mut why = String::new();
+    while hi - lo > 1 {
+        let mid = lo + (hi - lo) / 2;
+        match run_child(fam, lo, mid, hang_ms, limit) {
+            ChildEnd::Done(_) => lo = mid,
+            ChildEnd::Hang(i) => return Some((i, "no progress (watchdog)".into())),
+            ChildEnd::Abnormal(w, _) => {
+                why = w;
+                hi = mid;
+            }
+            ChildEnd::Timeout(_) => {
+                why = "time limit".into();
+                hi = mid;
+            }
+            ChildEnd::Spawn(_) => return None,
+        }
+    }
+    match run_child(fam, lo, lo + 1, hang_ms, limit) {
+        ChildEnd::Done(_) => None, // not reproducible in isolation
+        ChildEnd::Hang(i) => Some((i, "no progress (watchdog)".into())),
+        ChildEnd::Abnormal(w, _) => Some((lo, w)),
+        ChildEnd::Timeout(_) => Some((lo, "time limit".into())),
+        ChildEnd::Spawn(_) => {
+            let _ = why;
+            None
+        }
+    }
+}
+
+#[derive(Default)]
+struct Acc {
+    inputs: u64,
+    no_input: u64,
+    hist: BTreeMap<String, u64>,
+    machinery: Vec<String>,
+    slowest: Vec<(u64, String, u64)>,
+    /// family index -> (inputs run, indices covered)
+    per_family: BTreeMap<usize, (u64, u64)>,
+    jobs_cut: u64,
+}
+
+/// One child process worth of work.
+struct Job {
+    fam: usize,
+    start: u64,
+    end: u64,
+}
+
+fn run_job(ctx: &Ctx, sink: &Sink, fams: &[Family], job: &Job, acc: &mut Acc) {
+    let fam = &fams[job.fam];
+    let (start, end) = (job.start, job.end);
+    let is_extreme = matches!(fam, Family::Extreme);
+    let hang_ms: u64 = if is_extreme { 60_000 } else { 10_000 };
+    let limit = Duration::from_secs(if is_extreme { 1500 } else { ctx.tier.pick(300, 900) });
+    match run_child(fam, start, end, hang_ms, limit) {
+        ChildEnd::Done(d) => {
+            let mut n_in = 0;
+            if let Some(h) = d["hist"].as_object() {
+                for (k, v) in h {
+                    let n = v.as_u64().unwrap_or(0);
+                    n_in += n;
+                    *acc.hist.entry(format!("{}:{k}", fam_parser(fam))).or_insert(0) += n;
+                }
+            }
+            acc.inputs += n_in;
+            acc.no_input += d["no_input"].as_u64().unwrap_or(0);
+            let e = acc.per_family.entry(job.fam).or_insert((0, 0));
+            e.0 += n_in;
+            e.1 += end - start;
+            acc.slowest.push((d["slowest_us"].as_u64().unwrap_or(0), fam.describe(), d["slowest_idx"].as_u64().unwrap_or(0)));
+            for p in d["panics"].as_array().cloned().unwrap_or_default() {
+                if let Some(i) = p.as_u64() {
+                    sink.push(Violation {
+                        clause: "panic".into(),
+                        summary: format!("{} #{i}: {} makes the parser panic", fam.describe(), shown(fam, i)),
+                        replay: replay_of(fam, i),
+                        slug: None,
+                    });
+                }
+            }
+        }
+        ChildEnd::Hang(i) => {
+            sink.push(Violation {
+                clause: "hang".into(),
+                summary: format!("{} #{i}: {} not finished after {hang_ms} ms of CPU time", fam.describe(), shown(fam, i)),
+                replay: replay_of(fam, i),
+                slug: None,
+            });
+        }
+        ChildEnd::Abnormal(why, mark) => {
+            let lo = mark.max(start);
+            let hi = (mark + PROGRESS_EVERY).min(end).max(lo + 1);
+            match bisect(fam, lo, hi, hang_ms, limit) {
+                Some((i, w)) => sink.push(Violation {
+                    clause: "abnormal-exit".into(),
+                    summary: format!("{} #{i}: {} ends the process: {w} (batch: {why})", fam.describe(), shown(fam, i)),
+                    replay: replay_of(fam, i),
+                    slug: None,
+                }),
+                None => sink.push(Violation {
+                    clause: "abnormal-exit".into(),
+                    summary: format!("{} range {start}..{end}: child ended with {why} after index {mark}; not reproducible on a single input", fam.describe()),
+                    replay: json!({"kind": "range", "family": fam.describe(), "args": fam.args(), "start": start, "end": end}),
+                    slug: None,
+                }),
+            }
+        }
+        ChildEnd::Timeout(mark) => {
+            sink.push(Violation {
+                clause: "time-limit".into(),
+                summary: format!("{} range {start}..{end}: not finished within {:?}, last progress mark {mark}", fam.describe(), limit),
+                replay: json!({"kind": "range", "family": fam.describe(), "args": fam.args(), "start": start, "end": end}),
+                slug: None,
+            });
+        }
+        ChildEnd::Spawn(e) => acc.machinery.push(e),
+    }
+}
+
+fn fam_parser(f: &Family) -> &'static str {
+    match f {
+        Family::Enum { p, .. } | Family::Edit1 { p, .. } | Family::Edit2 { p, .. } => p.name(),
+        Family::Extreme => "extreme",
+    }
+}
+
+// ---------------------------------------------------------------------------
+// load_zone_configuration on real files
+// ---------------------------------------------------------------------------
+
+struct LoaderCase {
+    name: &'static str,
+    /// (file name, content) written as zone files
+    zones: Vec<(&'static str, Vec<u8>)>,
+    hosts: Vec<(&'static str, Vec<u8>)>,
+    /// also pass a path that does not exist / a directory as a file
+    missing_zone_file: bool,
+    missing_hosts_dir: bool,
+    dir_as_file: bool,
+    /// pass the files through a directory (-Z / -A) instead of one by one
+    via_dir: bool,
+    expect_some: bool,
+}
+
+fn loader_cases() -> Vec<LoaderCase> {
+    let good_zone: &[u8] = b"$ORIGIN ex.\n@ 60 IN SOA ns1 admin 1 2 3 4 60\nwww 300 IN A 10.0.0.1\n";
+    let good_hosts: &[u8] = b"127.0.0.1 localhost\n";
+    let z = |name: &'static str, content: &[u8]| LoaderCase {
+        name,
+        zones: vec![("10-good.zone", good_zone.to_vec()), ("20-bad.zone", content.to_vec())],
+        hosts: vec![("hosts", good_hosts.to_vec())],
+        missing_zone_file: false,
+        missing_hosts_dir: false,
+        dir_as_file: false,
+        via_dir: false,
+        expect_some: false,
+    };
+    let h = |name: &'static str, content: &[u8]| LoaderCase {
+        name,
+        zones: vec![("10-good.zone", good_zone.to_vec())],
+        hosts: vec![("10-good", good_hosts.to_vec()), ("20-bad", content.to_vec())],
+        missing_zone_file: false,
+        missing_hosts_dir: false,
+        dir_as_file: false,
+        via_dir: false,
+        expect_some: false,
+    };
+    let mut v = vec![
+        z("zone:TokeniserUnexpected", "www.ex. 300 IN TXT caf\u{e9}\n".as_bytes()),
+        z("zone:TokeniserUnexpectedEscape", b"www.ex. 300 IN TXT a\\25b\n"),
+        z("zone:IncludeNotSupported", b"$INCLUDE other.zone\n"),
+        z("zone:MultipleSOA", b"a. 60 IN SOA a. a. 1 2 3 4 5\na. 60 IN SOA a. a. 1 2 3 4 5\n"),
+        z("zone:WildcardSOA", b"*.a. 60 IN SOA a. a. 1 2 3 4 5\n"),
+        z("zone:NotSubdomainOfApex", b"a. 60 IN SOA a. a. 1 2 3 4 5\nb. 60 IN A 10.0.0.1\n"),
+        z("zone:Unexpected", b"www.ex. 300 CH A 10.0.0.1\n"),
+        z("zone:ExpectedU32", b"www.ex. 4294967296 IN A 10.0.0.1\n"),
+        z("zone:ExpectedOrigin", b"www 300 IN A 10.0.0.1\n"),
+        z("zone:ExpectedDomainName", b"a..b. 300 IN A 10.0.0.1\n"),
+        z("zone:WrongLen", b"$ORIGIN\n"),
+        z("zone:MissingType", b"www.ex. 300 IN FOO bar\n"),
+        z("zone:MissingTTL", b"www.ex. IN A 10.0.0.1\n"),
+        z("zone:MissingDomainName", b" 300 IN A 10.0.0.1\n"),
+        z("zone:unbalanced-parenthesis", b"www.ex. 300 IN A 10.0.0.1 )\n"),
+        z("zone:not-utf8", &[b'w', b'.', b' ', 0xff, 0xfe, b'\n']),
+        z("zone:one-MiB-of-parentheses", "(".repeat(1 << 20).as_bytes()),
+        h("hosts:ExpectedAscii", "1.2.3.4 caf\u{e9}\n".as_bytes()),
+        h("hosts:CouldNotParseAddress", b"1.2.3.999 a\n"),
+        h("hosts:CouldNotParseName", b"1.2.3.4 a..b\n"),
+        h("hosts:not-utf8", &[b'1', b'.', b'2', b'.', b'3', b'.', b'4', b' ', 0xc3, 0x28, b'\n']),
+    ];
+    let mut c = z("io:missing-zone-file", good_zone);
+    c.missing_zone_file = true;
+    v.push(c);
+    let mut c = z("io:missing-hosts-directory", good_zone);
+    c.missing_hosts_dir = true;
+    v.push(c);
+    let mut c = z("io:directory-given-as-zone-file", good_zone);
+    c.dir_as_file = true;
+    v.push(c);
+    // the same error classes found inside a directory
+    let mut c = z("dir:zone:MissingType", b"www.ex. 300 IN FOO bar\n");
+    c.via_dir = true;
+    v.push(c);
+    let mut c = h("dir:hosts:CouldNotParseAddress", b"1.2.3.999 a\n");
+    c.via_dir = true;
+    v.push(c);
+    // controls: good files load
+    let mut c = z("control:good-files", b"other. 300 IN A 10.0.0.2\n");
+    c.expect_some = true;
+    v.push(c);
+    let mut c = z("control:good-files-in-directories", b"other. 300 IN A 10.0.0.2\n");
+    c.expect_some = true;
+    c.via_dir = true;
+    v.push(c);
+    v
+}
+
+/// Ok(true): loaded (Some), Ok(false): refused (None), Err: panic
+fn run_loader_case(dir: &std::path::Path, c: &LoaderCase) -> Result<bool, String> {
+    let base = dir.join(c.name.replace([':', '/'], "_"));
+    let zdir = base.join("zones");
+    let hdir = base.join("hosts");
+    std::fs::create_dir_all(&zdir).map_err(|e| e.to_string())?;
+    std::fs::create_dir_all(&hdir).map_err(|e| e.to_string())?;
+    let mut zone_files = Vec::new();
+    let mut hosts_files = Vec::new();
+    for (n, content) in &c.zones {
+        let p = zdir.join(n);
+        std::fs::write(&p, content).map_err(|e| e.to_string())?;
+        zone_files.push(p);
+    }
+    for (n, content) in &c.hosts {
+        let p = hdir.join(n);
+        std::fs::write(&p, content).map_err(|e| e.to_string())?;
+        hosts_files.push(p);
+    }
+    let mut zone_dirs = Vec::new();
+    let mut hosts_dirs = Vec::new();
+    if c.via_dir {
+        zone_files.clear();
+        hosts_files.clear();
+        zone_dirs.push(zdir.clone());
+        hosts_dirs.push(hdir.clone());
+    }
+    if c.missing_zone_file {
+        zone_files.push(base.join("does-not-exist.zone"));
+    }
+    if c.missing_hosts_dir {
+        hosts_dirs.push(base.join("no-such-directory"));
+    }
+    if c.dir_as_file {
+        zone_files.push(zdir.clone());
+    }
+    let r = std::panic::catch_unwind(|| {
+        let rt = tokio::runtime::Builder::new_current_thread().enable_all().build().expect("runtime");
+        rt.block_on(resolved::fs::load_zone_configuration(&hosts_files, &hosts_dirs, &zone_files, &zone_dirs))
+            .is_some()
+    });
+    r.map_err(|_| "panic".to_string())
+}
+
+/// Run loader case `idx` in a child process; Err = panic, crash or no answer in time.
+fn loader_in_child(dir: &std::path::Path, idx: usize, limit: Duration) -> Result<bool, String> {
+    let exe = std::env::current_exe().map_err(|e| e.to_string())?;
+    let mut child = Command::new(exe)
+        .args(["worker", "C17", "loader", &idx.to_string(), &dir.display().to_string()])
+        .stdin(Stdio::null())
+        .stdout(Stdio::piped())
+        .stderr(Stdio::null())
+        .spawn()
+        .map_err(|e| format!("cannot start the worker: {e}"))?;
+    let t0 = Instant::now();
+    loop {
+        match child.try_wait() {
+            Ok(Some(status)) => {
+                let mut out = String::new();
+                if let Some(mut s) = child.stdout.take() {
+                    let _ = s.read_to_string(&mut out);
+                }
+                return if out.contains("LOADER some") {
+                    Ok(true)
+                } else if out.contains("LOADER none") {
+                    Ok(false)
+                } else if out.contains("LOADER error") {
+                    Err(out.trim().to_string())
+                } else {
+                    Err(format!("worker ended abnormally ({status})"))
+                };
+            }
+            Ok(None) => {
+                if t0.elapsed() > limit {
+                    let _ = child.kill();
+                    let _ = child.wait();
+                    return Err(format!("no answer within {limit:?}"));
+                }
+                std::thread::sleep(Duration::from_millis(20));
+            }
+            Err(e) => return Err(e.to_string()),
+        }
+    }
+}
+
+// ---------------------------------------------------------------------------
+
+pub fn run(ctx: &Ctx) -> i32 {
+    let sink = Sink::new(5000);
+    let mut report = Report::new();
+    let mut total = Acc::default();
+    let mut exhaustive = true;
+    let cap = ctx.tier.pick(45.0, 540.0);
+    let thorough = ctx.tier == Tier::Thorough;
+
+    // the order: cheap families first, the largest enumeration last
+    let mut fams: Vec<Family> = vec![Family::Extreme];
+    for p in [Parser::ZoneP, Parser::HostsP] {
+        for file in 0..bases(p).len() {
+            fams.push(Family::Edit1 { p, file });
+        }
+    }
+    let zone_len = ctx.tier.pick(5, 6);
+    let hosts_len = ctx.tier.pick(6, 8);
+    for len in 0..=hosts_len {
+        fams.push(Family::Enum { p: Parser::HostsP, len });
+    }
+    for len in 0..=zone_len {
+        fams.push(Family::Enum { p: Parser::ZoneP, len });
+    }
+    if thorough {
+        for p in [Parser::ZoneP, Parser::HostsP] {
+            for (file, t) in bases(p).iter().enumerate() {
+                if t.chars().count() <= 64 {
+                    fams.push(Family::Edit2 { p, file });
+                }
+            }
+        }
+    }
+    // job list: one child process per job; sizes chosen so that a job takes
+    // of the order of a second (process creation is the expensive part)
+    let mut jobs: Vec<Job> = Vec::new();
+    for (fi, fam) in fams.iter().enumerate() {
+        let size = fam.size();
+        let per_job: u64 = match fam {
+            Family::Extreme => 1,
+            Family::Enum { .. } => 3_000_000,
+            Family::Edit1 { .. } => 30_000,
+            Family::Edit2 { .. } => 1_500_000,
+        };
+        let mut start = 0;
+        while start < size {
+            let end = (start + per_job).min(size);
+            jobs.push(Job { fam: fi, start, end });
+            start = end;
+        }
+    }
+    // the long jobs first
+    jobs.sort_by_key(|j| std::cmp::Reverse(if matches!(fams[j.fam], Family::Extreme) { u64::MAX } else { j.end - j.start }));
+    let parts = zonegen::par_jobs(jobs.len(), ctx.threads, Acc::default, |acc, i| {
+        if ctx.elapsed() > cap {
+            acc.jobs_cut += 1;
+            return;
+        }
+        run_job(ctx, &sink, &fams, &jobs[i], acc);
+    });
+    for p in parts {
+        total.inputs += p.inputs;
+        total.no_input += p.no_input;
+        total.jobs_cut += p.jobs_cut;
+        for (k, v) in p.hist {
+            *total.hist.entry(k).or_insert(0) += v;
+        }
+        for (k, v) in p.per_family {
+            let e = total.per_family.entry(k).or_insert((0, 0));
+            e.0 += v.0;
+            e.1 += v.1;
+        }
+        total.machinery.extend(p.machinery);
+        total.slowest.extend(p.slowest);
+    }
+    if total.jobs_cut > 0 {
+        exhaustive = false;
+    }
+    let mut sizes: BTreeMap<String, Value> = BTreeMap::new();
+    for (fi, fam) in fams.iter().enumerate() {
+        let (inputs, covered) = total.per_family.get(&fi).copied().unwrap_or((0, 0));
+        if covered != fam.size() && !sink.is_empty() {
+            // a failing job does not report counts; the violation says why
+        } else if covered != fam.size() {
+            exhaustive = false;
+        }
+        sizes.insert(
+            fam.describe(),
+            json!({"index_space": fam.size(), "indices_covered": covered, "inputs_run": inputs, "complete": covered == fam.size()}),
+        );
+    }
+    sizes.insert("jobs".into(), json!({"total": jobs.len(), "cut_by_time_cap": total.jobs_cut, "done_at_s": ctx.elapsed()}));
+    if !total.machinery.is_empty() {
+        eprintln!("machinery error: cannot run the worker process: {}", total.machinery[0]);
+        return 2;
+    }
+
+    // load_zone_configuration on real files, each case in a child process
+    // with a time limit (a parser that never returns must not stop the check)
+    let dir = work_dir("c17");
+    let cases = loader_cases();
+    let loader_results = zonegen::par_jobs(cases.len(), ctx.threads, Vec::new, |acc: &mut Vec<(usize, Result<bool, String>)>, i| {
+        acc.push((i, loader_in_child(&dir, i, Duration::from_secs(20))));
+    });
+    let mut results: Vec<(usize, Result<bool, String>)> = loader_results.into_iter().flatten().collect();
+    results.sort_by_key(|r| r.0);
+    let mut loader_samples = Vec::new();
+    for (i, r) in results {
+        let c = &cases[i];
+        total.inputs += 1;
+        let key = match (&r, c.expect_some) {
+            (Ok(true), true) => "loader:control-loaded",
+            (Ok(false), false) => "loader:refused-as-required",
+            _ => "loader:VIOLATION",
+        };
+        *total.hist.entry(key.into()).or_insert(0) += 1;
+        if loader_samples.len() < 2 {
+            loader_samples.push(json!({"loader_case": c.name, "returned_some": r.clone().ok()}));
+        }
+        let bad = match (&r, c.expect_some) {
+            (Ok(true), true) | (Ok(false), false) => None,
+            (Ok(true), false) => Some("load_zone_configuration returned Some although one file is unusable".to_string()),
+            (Ok(false), true) => Some("load_zone_configuration returned None for good files (control)".to_string()),
+            (Err(e), _) => Some(format!("load_zone_configuration: {e}")),
+        };
+        if let Some(why) = bad {
+            sink.push(Violation {
+                clause: if r.is_err() { "loader-crash-or-hang".into() } else { "loader".into() },
+                summary: format!("loader case {}: {why}", c.name),
+                replay: json!({"kind": "loader", "case": c.name}),
+                slug: None,
+            });
+        }
+    }
+    let _ = std::fs::remove_dir_all(&dir);
+
+    total.slowest.sort_by(|a, b| b.0.cmp(&a.0));
+    total.slowest.truncate(5);
+    let trivial = total.hist.iter().filter(|(k, _)| k.ends_with(":ok-empty")).map(|(_, v)| *v).sum::<u64>();
+    report.evaluations = total.inputs;
+    report.states = total.inputs;
+    report.transitions = total.inputs;
+    report.traces_validated = total.inputs;
+    report.distinct_nontrivial = total.inputs - trivial;
+    report.rule = format!(
+        "every string of 0..={zone_len} symbols over the {}-symbol zone alphabet and of 0..={hosts_len} symbols over the {}-symbol hosts alphabet (distinct by construction: the multi-character symbols share no character with the others), every single symbol insertion/substitution/deletion at every position of {} zone and {} hosts base files{}, {} size extremes, {} loader cases; each input is one call of the real parser in a child process on a 2 MiB stack; an input is non-trivial when the parser did not simply return an empty result (it reached an error path or produced records); edit families may produce the same text twice, they are counted as inputs run",
+        ZONE_ALPHABET.len(),
+        HOSTS_ALPHABET.len(),
+        zone_bases().len(),
+        hosts_bases().len(),
+        if thorough { ", every ordered pair of such edits of the base files of at most 64 characters" } else { "" },
+        N_EXTREMES,
+        loader_cases().len()
+    );
+    let mut samples = vec![
+        json!({"family": "zone:all-strings-of-5-symbols", "index": 1234567, "input": shown(&Family::Enum { p: Parser::ZoneP, len: 5 }, 1234567)}),
+        json!({"family": "hosts:all-strings-of-6-symbols", "index": 7654321, "input": shown(&Family::Enum { p: Parser::HostsP, len: 6 }, 7654321)}),
+        json!({"family": "zone:single-edits-of-base-3", "index": 777, "input": shown(&Family::Edit1 { p: Parser::ZoneP, file: 3 }, 777)}),
+        json!({"family": "size-extremes", "index": 7, "input": shown(&Family::Extreme, 7)}),
+    ];
+    samples.extend(loader_samples);
+    report.samples = samples;
+    report.bounds = json!({
+        "zone_alphabet": ZONE_ALPHABET,
+        "hosts_alphabet": HOSTS_ALPHABET,
+        "zone_max_symbols": zone_len,
+        "hosts_max_symbols": hosts_len,
+        "families": sizes,
+        "indices_without_input": total.no_input,
+        "slowest_inputs_us": total.slowest.iter().map(|(us, f, i)| json!({"us": us, "family": f, "index": i})).collect::<Vec<_>>(),
+        "stack_bytes": 2 << 20,
+        "watchdog_cpu_ms": {"ordinary": 10_000, "size_extremes": 60_000, "wall_clock_factor": 20},
+        "time_cap_s": cap,
+    });
+    report.exhaustive = exhaustive;
+    report.outcome_histogram = total.hist;
+    report.assumptions = vec![
+        "a hang is an input on which the worker process spends 10 s of CPU time (60 s for the size extremes) or 20 times as much wall-clock time without finishing it".into(),
+        "inputs are valid UTF-8 strings (the loader cases add files that are not)".into(),
+        "memory exhaustion by huge legal inputs is outside the property (DESIGN section 10)".into(),
+    ];
+    report.violations = sink.take();
+    finish(ctx, report)
+}
+
+pub fn replay(ctx: &Ctx, v: &Value) -> i32 {
+    let kind = v["kind"].as_str().unwrap_or("");
+    let (p, text): (Parser, String) = match kind {
+        "text" => {
+            let p = match Parser::from(v["parser"].as_str().unwrap_or("")) {
+                Some(p) => p,
+                None => return 2,
+            };
+            (p, String::from_utf8_lossy(&unhex(v["hex"].as_str().unwrap_or(""))).to_string())
+        }
+        "extreme" => match extreme(v["index"].as_u64().unwrap_or(0) as usize) {
+            Some((p, what, t)) => {
+                println!("size extreme: {what}");
+                (p, t)
+            }
+            None => return 2,
+        },
+        "loader" => {
+            let name = v["case"].as_str().unwrap_or("");
+            let dir = work_dir("c17-replay");
+            let mut code = 2;
+            for c in loader_cases() {
+                if c.name == name {
+                    let idx = loader_cases().iter().position(|x| x.name == name).unwrap_or(0);
+                    let r = loader_in_child(&dir, idx, Duration::from_secs(30));
+                    println!("loader case {name}: result {r:?}, expected Some: {}", c.expect_some);
+                    code = match (r, c.expect_some) {
+                        (Ok(true), true) | (Ok(false), false) => 0,
+                        _ => 1,
+                    };
+                }
+            }
+            let _ = std::fs::remove_dir_all(&dir);
+            if code == 1 {
+                println!("VIOLATION property={} replay=(replayed case)", ctx.id);
+            } else if code == 0 {
+                println!("replay: property holds on this case");
+            }
+            return code;
+        }
+        "range" => {
+            // re-run the recorded child range
+            let args: Vec<String> = v["args"].as_array().map(|a| a.iter().filter_map(|s| s.as_str().map(String::from)).collect()).unwrap_or_default();
+            let fam = match Family::parse(&args) {
+                Some(f) => f,
+                None => return 2,
+            };
+            let r = run_child(&fam, v["start"].as_u64().unwrap_or(0), v["end"].as_u64().unwrap_or(0), 10_000, Duration::from_secs(900));
+            println!("child: {r:?}");
+            return match r {
+                ChildEnd::Done(d) if d["panics"].as_array().map(|a| a.is_empty()).unwrap_or(true) => {
+                    println!("replay: property holds on this case");
+                    0
+                }
+                ChildEnd::Spawn(_) => 2,
+                _ => {
+                    println!("VIOLATION property={} replay=(replayed case)", ctx.id);
+                    1
+                }
+            };
+        }
+        _ => return 2,
+    };
+    let preview: String = text.chars().take(300).collect();
+    println!("{} parser, input of {} bytes: {:?}", p.name(), text.len(), preview);
+    // on a 2 MiB stack, with a 60 s limit
+    let (tx, rx) = std::sync::mpsc::channel();
+    let t2 = text.clone();
+    let _ = std::thread::Builder::new().stack_size(2 << 20).spawn(move || {
+        let r = std::panic::catch_unwind(|| classify(p, &t2));
+        let _ = tx.send(r.map_err(|_| ()));
+    });
+    match rx.recv_timeout(Duration::from_secs(60)) {
+        Ok(Ok(c)) => {
+            println!("result: {c}");
+            println!("replay: property holds on this case");
+            0
+        }
+        Ok(Err(())) => {
+            println!("result: panic");
+            println!("VIOLATION property={} replay=(replayed case)", ctx.id);
+            1
+        }
+        Err(_) => {
+            println!("result: no answer within 60 s");
+            println!("VIOLATION property={} replay=(replayed case)", ctx.id);
+            1
+        }
+    }
 }
